@@ -30,16 +30,17 @@ Templates ==
      ParseJWS            |-> {"jws"},
      VerifyJWS           |-> {"jws", "jwk"},
      MarshalCanonical    |-> {"create", "document"},
-     \* (patch_keys_ed: keys of the Ed25519 suites, given as JWK and as base58)
+     \* (patch_keys_ed: keys of the Ed25519 suites, given as JWK and as base58; patch_keys_multibase: an Ed25519 2020 key
+     \* given the way resolved documents show it - as publicKeyMultibase, which validation does not admit today)
      PatchFromBytes      |-> {"patch_keys", "patch_jsonpatch", "patch_replace"},
-     Validate            |-> {"patch_keys", "patch_keys_ed", "patch_services", "patch_services_objects", "patch_jsonpatch", "patch_replace", "patch_aka", "patch_remove_keys"},
+     Validate            |-> {"patch_keys", "patch_keys_ed", "patch_keys_multibase", "patch_services", "patch_services_objects", "patch_jsonpatch", "patch_replace", "patch_aka", "patch_remove_keys"},
      \* (patch_jsonpatch_protected: replace operations that point into keys and services - refused by validation,
      \* which a direct caller of the composer does not have to use)
      ApplyPatches        |-> {"patch_jsonpatch_protected", "patch_keys", "patch_keys_ed", "patch_services", "patch_services_objects", "patch_jsonpatch", "patch_jsonpatch_array", "patch_replace", "patch_aka",
                               "patch_remove_keys", "patch_remove_services", "patch_remove_aka", "document"},
      \* (*_object_origin: the anchor origin is a JSON object, not a string)
      Apply               |-> {"create", "update", "recover", "deactivate", "update_disabled", "create_disabled", "recover_object_origin", "create_object_origin"},
-     TransformDocument   |-> {"document", "patch_keys", "patch_keys_ed", "patch_services", "patch_services_objects"},
+     TransformDocument   |-> {"document", "patch_keys", "patch_keys_ed", "patch_keys_multibase", "patch_services", "patch_services_objects"},
      OriginalDocument    |-> {"document"}]
 
 EntryPoints == DOMAIN Templates
@@ -52,7 +53,9 @@ Replacements == {"null", "true", "zero", "minus_one", "huge_number", "empty_stri
                  "stray_tilde", "same_shape_other_value",
                  \* (a short text that is deep: 48 nested lists / objects with a leaf that no rule accepts - work that doubles
                  \* per level never ends, although the text has a hundred bytes)
-                 "deep_list_bad_leaf", "deep_object_bad_leaf"}
+                 "deep_list_bad_leaf", "deep_object_bad_leaf",
+                 \* (the shortest texts: one character - a prefix with nothing behind it - and three)
+                 "one_char", "three_chars"}
 
 \* chains of copy / move operations among a few locations of one document: a library that links nodes
 \* instead of copying them must not be led into a cyclic document
